@@ -9,6 +9,16 @@ import Dashu.Gen.Misc
 -/
 namespace Dashu.Model
 
+/-- `mul_word_in_place_with_carry`: words = words * rhs + carry; returns carry word.
+    (`rhs == 0` returns 0 *without touching the words*; callers never pass 0.) -/
+def mulWordInPlace (W : Nat) : List Nat → Nat → Nat → List Nat × Nat
+  | [], _, c => ([], c)
+  | a :: as, rhs, c =>
+    let v := a * rhs + c
+    let (r, c') := mulWordInPlace W as rhs (v / 2 ^ W)
+    (v % 2 ^ W :: r, c')
+
+
 /-- loop of `add_mul_word_same_len_in_place`: `(v_lo, v_hi) = mul_add_2carry(mult, b, a, carry)` -/
 def addMulWordLoop (W : Nat) : List Nat → Nat → List Nat → Nat → List Nat × Nat
   | a :: as, mult, b :: bs, c =>
@@ -135,8 +145,9 @@ def wordsOfLen (W : Nat) : Nat → Nat → List Nat
 /-- the type of every "c += sign·a·b, returns the signed carry" kernel -/
 abbrev MulKernel := List Nat → Bool → List Nat → List Nat → List Nat × Int
 
-/-- frontier kernel: `toom_3::add_signed_mul_same_len` — defined as its specification
-    (c += sign·a·b modulo `B^|c|`, the quotient is the carry) -/
+/-- the specification of every signed-multiply kernel as an executable function (c += sign·a·b modulo
+    `B^|c|`, the quotient is the carry); was the frontier stand-in for `toom_3::add_signed_mul_same_len`
+    until that kernel was mirrored, kept for tests and statements -/
 def addSignedMulFrontier (W : Nat) : MulKernel := fun c neg a b =>
   let t : Int := (val W c : Int) + (if neg then -1 else 1) * ((val W a * val W b : Nat) : Int)
   let m : Int := ((2 ^ (W * c.length) : Nat) : Int)
@@ -189,6 +200,130 @@ def karatsubaSameLen (W : Nat) (rec : MulKernel) : MulKernel := fun c neg a b =>
   let c := setWindow c (3 * mid) w6
   (c, carry + k6)
 
+-- ---------------------------------------------------------------- Toom-3 (mul/toom_3.rs)
+
+/-- `a0 + 2·a1 + 4·a2` in `n3 + 1` words (Toom-3 evaluation at 2):
+    `a_eval[n3] = add_mul_word_same_len_in_place(&mut a_eval[..n3], 2, a1);`
+    `a_eval[n3] += add_mul_word_in_place(&mut a_eval[..n3], 4, a2);` -/
+def toomEval2 (W : Nat) (a0 a1 a2 : List Nat) : List Nat :=
+  let (e1, k1) := addMulWordSameLen W a0 2 a1
+  let (e2, k2) := addMulWordInPlace W e1 4 a2
+  e2 ++ [k1 + k2]
+
+/-- `a02 = a0 + a2` in `n3 + 1` words: `a02[n3] = Word::from(add_in_place(&mut a02[..n3], a2))` -/
+def toomEval02 (W : Nat) (a0 a2 : List Nat) : List Nat :=
+  let (s, k) := addInPlace W a0 a2
+  s ++ [k]
+
+/-- `a_eval = a02; a_eval[n3] += Word::from(add_same_len_in_place(&mut a_eval[..n3], a1))` -/
+def toomEval1 (W : Nat) (a02 a1 : List Nat) : List Nat :=
+  let n3 := a1.length
+  let (s, k) := addSameLen W (a02.take n3) a1 0
+  s ++ [a02.getD n3 0 + k]
+
+/-- the scratch buffers of `toom_3::add_signed_mul_same_len` that are added into `c`:
+    `v0 = V(0)`, `vinf = V(∞)`, `t2a = V(1)`, and the interpolated `t1 = (3V(0)+2V(−1)+V(2))/6 − 2V(∞)`,
+    `t2 = (V(1)+V(−1))/2` -/
+structure ToomScratch where
+  v0 : List Nat
+  vinf : List Nat
+  t2a : List Nat
+  t1 : List Nat
+  t2 : List Nat
+
+/-- the scratch-buffer computations of `toom_3::add_signed_mul_same_len`, in source order (they never
+    read `c`).  `rec` is `mul::add_signed_mul_same_len` (always called with `Positive` on a buffer whose
+    carry-out is asserted zero).  `div_by_word_in_place(t1, 6)` (C02) and `shr_in_place(t2, 1)` (C09) are
+    taken at their specification; their asserted-zero remainders are proved zero. -/
+def toomScratch (W : Nat) (rec : MulKernel) (a b : List Nat) : ToomScratch :=
+  let n := a.length
+  let n3 := (n + 2) / 3
+  let n3s := n - 2 * n3
+  let a0 := a.take n3
+  let a1 := (a.drop n3).take n3
+  let a2 := a.drop (2 * n3)
+  let b0 := b.take n3
+  let b1 := (b.drop n3).take n3
+  let b2 := b.drop (2 * n3)
+  -- V(0) = a0·b0;  t1 = 3·V(0)
+  let v0 := (rec (List.replicate (2 * n3) 0) false a0 b0).1
+  let t1m := mulWordInPlace W v0 3 0
+  let t1 := t1m.1 ++ [t1m.2, 0]
+  -- V(2) = (a0+2a1+4a2)(b0+2b1+4b2);  t1 += V(2)
+  let t1 := (rec t1 false (toomEval2 W a0 a1 a2) (toomEval2 W b0 b1 b2)).1
+  -- V(inf) = a2·b2;  t1 -= 12·V(inf)   ("3V(0) + V(2) - 12V(inf) is never negative")
+  let vinf := (rec (List.replicate (2 * n3s) 0) false a2 b2).1
+  let cm := mulWordInPlace W vinf 12 0
+  let t1 := (subInPlace W t1 (cm.1 ++ [cm.2])).1
+  -- V(1) = (a0+a1+a2)(b0+b1+b2);  t2 = V(1)
+  let a02 := toomEval02 W a0 a2
+  let b02 := toomEval02 W b0 b2
+  let t2a := (rec (List.replicate (2 * n3 + 2) 0) false (toomEval1 W a02 a1) (toomEval1 W b02 b1)).1
+  -- V(-1) = (a02-a1)(b02-b1);  t2 += V(-1);  t1 += 2·V(-1)
+  let am := subInPlaceWithSign W a02 a1
+  let bm := subInPlaceWithSign W b02 b1
+  let vneg := am.1 != bm.1
+  let cEval := (rec (List.replicate (2 * (n3 + 1)) 0) false am.2 bm.2).1
+  let t2 := (addSignedSameLen W t2a vneg cEval).1
+  let t1 := if vneg then (subMulWordSameLen W t1 2 cEval).1 else (addMulWordSameLen W t1 2 cEval).1
+  -- t1 /= 6;  t2 /= 2
+  let t1 := wordsOfLen W (2 * n3 + 2) (val W t1 / 6)
+  let t2 := wordsOfLen W (2 * n3 + 2) (val W t2 / 2)
+  ⟨v0, vinf, t2a, t1, t2⟩
+
+/-- the updates of `c` in `toom_3::add_signed_mul_same_len`, in source order; carries `carry_c0..c3`
+    leave the windows at `2n3`, `3n3+2`, `4n3+2`, `5n3+2` and are applied at the end -/
+def toomApply (W n3 : Nat) (c : List Nat) (neg : Bool) (v0 vinf t2a t1 t2 : List Nat) : List Nat × Int :=
+  -- c_0 += V(0);  c_2 -= V(0)
+  let (w, k) := addSignedSameLen W (window c 0 (2 * n3)) neg v0
+  let c := setWindow c 0 w
+  let carryC0 : Int := k
+  let (w, k) := addSignedInPlace W (window c (2 * n3) (4 * n3 + 2)) (!neg) v0
+  let c := setWindow c (2 * n3) w
+  let carryC2 : Int := k
+  -- c_2 -= V(inf);  c_4 += V(inf)
+  let (w, k) := addSignedInPlace W (window c (2 * n3) (4 * n3 + 2)) (!neg) vinf
+  let c := setWindow c (2 * n3) w
+  let carryC2 := carryC2 + k
+  let (w, k) := addSignedSameLen W (c.drop (4 * n3)) neg vinf
+  let c := setWindow c (4 * n3) w
+  let carry : Int := k
+  -- c_1 += V(1)
+  let (w, k) := addSignedInPlace W (window c n3 (3 * n3 + 2)) neg t2a
+  let c := setWindow c n3 w
+  let carryC1 : Int := k
+  -- c_1 -= t1;  c_3 += t1;  c_2 += t2;  c_3 -= t2
+  let (w, k) := addSignedSameLen W (window c n3 (3 * n3 + 2)) (!neg) t1
+  let c := setWindow c n3 w
+  let carryC1 := carryC1 + k
+  let (w, k) := addSignedSameLen W (window c (3 * n3) (5 * n3 + 2)) neg t1
+  let c := setWindow c (3 * n3) w
+  let carryC3 : Int := k
+  let (w, k) := addSignedSameLen W (window c (2 * n3) (4 * n3 + 2)) neg t2
+  let c := setWindow c (2 * n3) w
+  let carryC2 := carryC2 + k
+  let (w, k) := addSignedSameLen W (window c (3 * n3) (5 * n3 + 2)) (!neg) t2
+  let c := setWindow c (3 * n3) w
+  let carryC3 := carryC3 + k
+  -- apply carries
+  let (w, k) := addSignedWord W (window c (2 * n3) (3 * n3 + 2)) carryC0
+  let c := setWindow c (2 * n3) w
+  let carryC1 := carryC1 + k
+  let (w, k) := addSignedWord W (window c (3 * n3 + 2) (4 * n3 + 2)) carryC1
+  let c := setWindow c (3 * n3 + 2) w
+  let carryC2 := carryC2 + k
+  let (w, k) := addSignedWord W (window c (4 * n3 + 2) (5 * n3 + 2)) carryC2
+  let c := setWindow c (4 * n3 + 2) w
+  let carryC3 := carryC3 + k
+  let (w, k) := addSignedWord W (c.drop (5 * n3 + 2)) carryC3
+  let c := setWindow c (5 * n3 + 2) w
+  (c, carry + k)
+
+/-- `toom_3::add_signed_mul_same_len` with the recursive callee passed as `rec` -/
+def toom3SameLen (W : Nat) (rec : MulKernel) : MulKernel := fun c neg a b =>
+  let s := toomScratch W rec a b
+  toomApply W ((a.length + 2) / 3) c neg s.v0 s.vinf s.t2a s.t1 s.t2
+
 /-- `mul::add_signed_mul_same_len`: dispatch on `n` (thresholds regenerated from source);
     `fuel` bounds the recursion depth (`a.length` always suffices; at 0 the exact schoolbook kernel is
     used, which has the same contract) -/
@@ -198,7 +333,7 @@ def addSignedMulSameLen (W : Nat) : Nat → MulKernel
     if a.length ≤ Dashu.Gen.mul_THRESHOLD_SIMPLE then addSignedMulChunk W c neg a b
     else if a.length ≤ Dashu.Gen.mul_THRESHOLD_KARATSUBA then
       karatsubaSameLen W (addSignedMulSameLen W fuel) c neg a b
-    else addSignedMulFrontier W c neg a b
+    else toom3SameLen W (addSignedMulSameLen W fuel) c neg a b
 
 -- ---------------------------------------------------------------- helpers::add_signed_mul_split_into_chunks
 
@@ -254,7 +389,8 @@ def addSignedMul (W : Nat) : Nat → MulKernel
       splitLoop W b.length (karatsubaSameLen W (addSignedMulSameLen W b.length)) (addSignedMul W fuel)
         a.length c neg a b 0
     else
-      splitLoop W b.length (addSignedMulFrontier W) (addSignedMul W fuel) a.length c neg a b 0
+      splitLoop W b.length (toom3SameLen W (addSignedMulSameLen W b.length)) (addSignedMul W fuel)
+        a.length c neg a b 0
 
 -- ---------------------------------------------------------------- squaring (sqr/simple.rs, sqr/mod.rs)
 
